@@ -1,8 +1,90 @@
 import PyresampleModel.Model.C02
+import PyresampleModel.Proofs.Compact
 
 /-
-  C02 — property theorems (stub: none yet).
+  C02 — property theorems for nearest-neighbour resampling.
 -/
 namespace PyresampleModel.C02
+
+/-- what the kd-tree query is assumed to return for the `k`-th valid target, whose original index
+is `j`: the sentinel `n_valid` when no valid source lies within the radius, otherwise the compacted
+position of a valid source within the radius that is nearest among all valid sources -/
+def QueryOK (srcValid : List Bool) (d2 : Nat → Nat → Rat) (r2 : Rat) (j idx : Nat) : Prop :=
+  (idx = srcValid.count true ∧ ∀ s, srcValid[s]? = some true → ¬ d2 s j ≤ r2) ∨
+  (∃ s, srcValid[s]? = some true ∧ idx = rank srcValid s ∧ d2 s j ≤ r2 ∧
+    ∀ s', srcValid[s']? = some true → d2 s j ≤ d2 s' j)
+
+/-- **nearest neighbour = truly nearest valid source or fill**: for every source/target size,
+validity pattern, data column and radius, if the kd-tree answers satisfy `QueryOK` then every
+element of the output is
+* the fill value when the target location is invalid,
+* the fill value when no valid source lies within the radius,
+* otherwise the data value of a valid source within the radius that is nearest among all valid
+  sources (invalid sources never contribute). -/
+theorem nn_pipeline_correct {α} (srcValid : List Bool) (data : List α) (tgtValid : List Bool) (q : List Nat)
+    (fill : α) (d2 : Nat → Nat → Rat) (r2 : Rat)
+    (hlen : data.length = srcValid.length) (hq : q.length = tgtValid.count true)
+    (hspec : ∀ j, tgtValid[j]? = some true → ∀ idx, q[rank tgtValid j]? = some idx → QueryOK srcValid d2 r2 j idx)
+    (j : Nat) (_hj : j < tgtValid.length) :
+    (tgtValid[j]? = some false → (pipelineNN srcValid data tgtValid q fill)[j]? = some fill) ∧
+    (tgtValid[j]? = some true →
+      ((∀ s, srcValid[s]? = some true → ¬ d2 s j ≤ r2) →
+        (pipelineNN srcValid data tgtValid q fill)[j]? = some fill) ∧
+      ((∃ s, srcValid[s]? = some true ∧ d2 s j ≤ r2) →
+        ∃ s, srcValid[s]? = some true ∧ d2 s j ≤ r2 ∧ (∀ s', srcValid[s']? = some true → d2 s j ≤ d2 s' j) ∧
+          (pipelineNN srcValid data tgtValid q fill)[j]? = data[s]?)) := by
+  have hg : (gatherNN (compact data srcValid) (srcValid.count true) fill q).length = tgtValid.count true := by
+    simp [gatherNN, hq]
+  obtain ⟨hF, hT⟩ := scatter_get fill tgtValid _ j hg
+  refine ⟨hF, ?_⟩
+  intro ht
+  have hr := rank_lt_count tgtValid j ht
+  have hidx : ∃ idx, q[rank tgtValid j]? = some idx := by
+    have : rank tgtValid j < q.length := by omega
+    exact ⟨q[rank tgtValid j], by simp [this]⟩
+  obtain ⟨idx, hidx⟩ := hidx
+  have hout : (pipelineNN srcValid data tgtValid q fill)[j]? =
+      some (if idx = srcValid.count true then fill else (compact data srcValid).getD idx fill) := by
+    unfold pipelineNN
+    rw [hT ht]
+    simp [gatherNN, hidx]
+  rcases hspec j ht idx hidx with ⟨hsent, hnone⟩ | ⟨s, hs, hidxs, hin, hmin⟩
+  · constructor
+    · intro _; rw [hout, if_pos hsent]
+    · rintro ⟨s, hs, hin⟩; exact absurd hin (hnone s hs)
+  · have hne : idx ≠ srcValid.count true := by
+      have := rank_lt_count srcValid s hs; omega
+    have hval : (compact data srcValid)[idx]? = data[s]? := by
+      rw [hidxs]; exact compact_get_rank data srcValid s hlen hs
+    have hslt : s < data.length := by
+      have : s < srcValid.length := by
+        rcases Nat.lt_or_ge s srcValid.length with h | h
+        · exact h
+        · rw [List.getElem?_eq_none h] at hs; cases hs
+      omega
+    constructor
+    · intro hnone; exact absurd hin (hnone s hs)
+    · intro _
+      refine ⟨s, hs, hin, hmin, ?_⟩
+      rw [hout, if_neg hne]
+      have : data[s]? = some data[s] := by simp [hslt]
+      rw [this] at hval ⊢
+      simp [List.getD_eq_getElem?_getD, hval]
+
+/-- validity: exactly the in-range finite coordinates are valid -/
+theorem validCoord_iff (lon lat : Option Rat) :
+    validCoord lon lat = true ↔ ∃ lo la, lon = some lo ∧ lat = some la ∧ -180 ≤ lo ∧ lo ≤ 180 ∧ -90 ≤ la ∧ la ≤ 90 := by
+  cases lon <;> cases lat <;> simp [validCoord]
+  constructor
+  · rintro ⟨⟨⟨h1, h2⟩, h3⟩, h4⟩; exact ⟨h1, h2, h4, h3⟩
+  · rintro ⟨h1, h2, h3, h4⟩; exact ⟨⟨⟨h1, h2⟩, h4⟩, h3⟩
+
+/-- the output always has the target's size -/
+theorem pipelineNN_length {α} (srcValid : List Bool) (data : List α) (tgtValid : List Bool) (q : List Nat) (fill : α) :
+    (pipelineNN srcValid data tgtValid q fill).length = tgtValid.length := by
+  simp [pipelineNN, scatter_length]
+
+/-! non-vacuity: 3 sources (middle one invalid), 3 targets (last invalid); query answers satisfy QueryOK -/
+example : pipelineNN [true, false, true] [10, 20, 30] [true, true, false] [1, 2] (-1) = [30, -1, -1] := by decide
 
 end PyresampleModel.C02
